@@ -134,6 +134,13 @@ func (x *Run) model(fr *Frame, st *State, fn *ssa.Function, args []Val, site ssa
 		r := x.ufApply(st, "ext."+x.fnShort(fn), args, fn.Signature.Results())
 		st.assume(fmt.Sprintf("(and (>= %s (- 1)) (< %s (strlen %s)))", r.T, r.T, args[0].T))
 		return single(st, r), true
+	case "strings.Count":
+		// library contract: non-overlapping occurrences of a non-empty
+		// separator fit into the string (r * len(sep) <= len(s), r >= 0)
+		r := x.ufApply(st, "ext."+x.fnShort(fn), args, fn.Signature.Results())
+		st.assume(fmt.Sprintf("(>= %s 0)", r.T))
+		st.assume(implies(fmt.Sprintf("(>= (strlen %s) 1)", args[1].T), fmt.Sprintf("(<= %s (strlen %s))", r.T, args[0].T)))
+		return single(st, r), true
 	case "context.WithValue":
 		// library contract: Value(WithValue(p,k,v), k) == v; other keys see the parent
 		r := x.ufApply(st, "ctx.with", args, fn.Signature.Results())
